@@ -164,7 +164,7 @@ class Index:
         cname = qual.split(".")[0]
         key = (rel, qual, tuple(sorted(keep)), depth)
         if key not in self._flat:
-            self._flat[key] = flatten_function(fn, self.methods(rel, cname), keep, depth)
+            self._flat[key] = flatten_function(fn, self.methods(rel, cname), keep, depth, cls_name=cname)
         return self._flat[key]
 
     def methods(self, rel, clsname):
@@ -1012,7 +1012,7 @@ def _single_exit(stmts, make_result):
     return None if tail is None else [s] + tail
 
 
-def flatten_function(fn, methods, keep=(), depth=2):
+def flatten_function(fn, methods, keep=(), depth=2, cls_name=None):
     """a copy of `fn` in which calls (as whole statements: `self.h(...)`, `x = self.h(...)`, `return self.h(...)`) of helper methods of
     the same class are replaced by the helper's body - parameters read as the arguments, `return v` turned into the assignment the
     call site makes.  Helpers named in `keep` (the routines a rule addresses by name), generators, helpers with *args/**kwargs, and
@@ -1030,10 +1030,13 @@ def flatten_function(fn, methods, keep=(), depth=2):
 
     def inline(call, h, make_result, caller_names):
         a = h.args
-        if h.decorator_list or a.vararg or a.kwarg or a.posonlyargs or a.kwonlyargs or any(isinstance(n, (ast.Yield, ast.YieldFrom)) for n in ast.walk(h)):
+        static = [d for d in h.decorator_list if isinstance(d, ast.Name) and d.id == "staticmethod"]
+        if len(static) != len(h.decorator_list) or a.vararg or a.kwarg or a.posonlyargs or a.kwonlyargs or any(
+                isinstance(n, (ast.Yield, ast.YieldFrom)) for n in ast.walk(h)):
             return None
         params = [x.arg for x in a.args]
-        if params and params[0] in ("self", "cls"):
+        through_class = isinstance(call.func.value, ast.Name) and call.func.value.id == cls_name
+        if params and params[0] in ("self", "cls") and not static and not through_class:
             params = params[1:]
         bound = {}
         for p_, v_ in zip(params, call.args):
@@ -1092,7 +1095,8 @@ def flatten_function(fn, methods, keep=(), depth=2):
         return pre + out
 
     def helper_of(call):
-        if isinstance(call, ast.Call) and isinstance(call.func, ast.Attribute) and isinstance(call.func.value, ast.Name) and call.func.value.id == "self":
+        if isinstance(call, ast.Call) and isinstance(call.func, ast.Attribute) and isinstance(call.func.value, ast.Name) and \
+                call.func.value.id in ("self", cls_name):
             h = methods.get(call.func.attr)
             if h is not None and h is not fn and h.name not in keep:
                 return h
